@@ -106,6 +106,8 @@ Theorem recv_gas_charged g cfg e w p tape lie :
   rr_out (recv_gas g cfg e w p tape lie) = OAckOk ->
   pkt_gas_free g p = false ->
   exists a m,
+    (exists denom amount sender receiver pl f,
+        pk_data p = PIcs denom amount sender receiver (Ok pl) /\ p_fwd pl = Some f /\ f_attrs f = Some a) /\
     charge cfg g a m /\
     rr_out (recv_lie cfg e w p tape lie) = OAckOk /\
     rr_trace (recv_gas g cfg e w p tape lie) = rr_trace (recv_lie cfg e w p tape lie) /\
@@ -124,17 +126,17 @@ Proof.
   destruct (_ || _); [discriminate|].
   destruct (negb (existsb _ _)); [discriminate|].
   unfold pkt_gas_free in Hg.
-  destruct (pk_data p) as [|denom amount sender receiver memo]; [discriminate|].
+  destruct (pk_data p) as [|denom amount sender receiver memo] eqn:Hdata; [discriminate|].
   destruct (negb (is_orbiter_receiver repaired cfg e receiver)); [exfalso; eapply delegate_not_ok; eauto|].
   destruct (parse_orbiter_packet repaired e p denom amount memo) as [[t pl']| |] eqn:Hp; [|discriminate|discriminate].
   destruct memo as [pl| |]; try discriminate.
   apply parse_ok_payload in Hp as ->.
-  destruct (p_fwd pl) as [f|]; [|discriminate].
+  destruct (p_fwd pl) as [f|] eqn:Hfwd; [|discriminate].
   destruct (pass_limit (w_o w) <? slen (f_pass f)); [discriminate|].
   match type of H with context [recv_body ?vr ?c ?ac ?en ?li ?o ?pk ?pl0 ?f0 ?t0 ?s0] =>
     destruct (recv_body vr c ac en li o pk pl0 f0 t0 s0) as [t' s1|l s1|y] eqn:Hb end; [|discriminate|discriminate].
   apply recv_body_charged in Hb as (a & m & s1' & Hfa & Hplain & -> & Hch & Hpaid); [|exact Hg].
-  rewrite Hplain. exists a, m. split; [exact Hch|].
+  rewrite Hplain. exists a, m. split; [exists denom, amount, sender, receiver, pl, f; auto|]. split; [exact Hch|].
   destruct (update_stats_swallow (v_stats_strict repaired) (w_o w) t' f) as [o'| |]; [|discriminate|discriminate].
   rewrite ext_do_move in H |- *.
   assert (Hl : ps_l (snd (ext (CEmit "EventPayloadProcessed") s1')) = ps_l s1')
@@ -171,7 +173,7 @@ Proof.
   - rewrite (recv_gas_same g cfg e w p tape 0 Hg) in *.
     destruct (success_moves cfg e w p tape Hwf H) as (d & A & fees & sink & Hm & Hl & Hf & Hs & Ho & HA).
     exists d, A, fees, sink, []. cbv zeta. rewrite app_nil_r. repeat split; auto.
-  - destruct (recv_gas_charged g cfg e w p tape 0 H Hg) as (a & m & Hch & Hok & _ & Hmv & _ & Hl & _ & _).
+  - destruct (recv_gas_charged g cfg e w p tape 0 H Hg) as (a & m & _ & Hch & Hok & _ & Hmv & _ & Hl & _ & _).
     destruct (success_moves cfg e w p tape Hwf Hok) as (d & A & fees & sink & Hm & Hl0 & Hf & Hs & Ho & HA).
     exists d, A, fees, sink, [m]. cbv zeta. cbv zeta in Hm.
     split; [rewrite Hmv; unfold recv; rewrite <- Hm; reflexivity|].
@@ -196,7 +198,7 @@ Proof.
   - rewrite (recv_gas_same g cfg e w p tape 0 Hg) in *.
     destruct (success_clears cfg e w p tape Hwf H) as (_ & _ & _ & _ & _ & d & _ & _ & _ & Hz & Ho).
     exists d. split; [exact Hz|]. intros d' Hne Hnn. unfold recv in Ho. rewrite (Ho _ _ Hne). lia.
-  - destruct (recv_gas_charged g cfg e w p tape 0 H Hg) as (a & m & _ & Hok & _ & _ & _ & Hl & _ & Hpaid).
+  - destruct (recv_gas_charged g cfg e w p tape 0 H Hg) as (a & m & _ & _ & Hok & _ & _ & _ & Hl & _ & Hpaid).
     destruct (success_clears cfg e w p tape Hwf Hok) as (_ & _ & _ & _ & _ & d & _ & _ & _ & Hz & Ho).
     unfold recv in Hz, Ho. exists d. rewrite Hl.
     destruct m as [f payee gd q| |]; cbn [paid_from] in Hpaid; try contradiction. destruct Hpaid as [-> [Hq Hle]].
@@ -208,4 +210,109 @@ Proof.
       * rewrite (Ho _ _ Hgd) in Hle. unfold net, hit. rewrite !String.eqb_refl, ?andb_true_r. cbn [andb].
         destruct (String.eqb (cfg_orbiter cfg) payee); lia.
       * rewrite net_other_denom by (cbn; congruence). lia.
+Qed.
+
+(* ---------- the converse: a transfer that succeeds without the hook succeeds through it exactly when the
+   max fee admits the quote and the orbiter account holds the quote once the collateral has left ---------- *)
+Lemma forward_ctrl_charge_complete x g cfg e pid t s u s1' token domain rcp hook md gas fd fa payee gd q :
+  forward_ctrl_with x false no_gas cfg e pid (AHyp token domain rcp hook md gas fd fa) t s = POk u s1' ->
+  g (opt_str hook) domain gas = Some (payee, gd, q) ->
+  gas_ok fd fa gd q = true ->
+  q <= bal (ps_l s1') (cfg_orbiter cfg) gd ->
+  forward_ctrl_with x false g cfg e pid (AHyp token domain rcp hook md gas fd fa) t s =
+    POk u (do_move (MSend (cfg_orbiter cfg) payee gd q) s1').
+Proof.
+  unfold forward_ctrl_with. intros H G Hok Hq.
+  destruct (pid =? protocol_cctp); [discriminate|].
+  destruct (pid =? protocol_hyperlane); [|destruct (pid =? protocol_internal); discriminate].
+  cbn [andb] in *.
+  apply mbind_ok in H as (u1 & s' & H1 & H). apply lift_ok in H1 as [Hv ->].
+  apply mbind_ok in H as (u2 & s' & H2 & H). apply lift_ok in H2 as [Hh ->].
+  apply mbind_ok in H as (u2' & s' & H2' & H). apply lift_ok in H2' as [Hf ->].
+  apply mbind_ok in H as (u3 & s' & H3 & H).
+  unfold mbind, lift. rewrite Hv, Hh, Hf, H3.
+  destruct (cfg_hyp_token cfg token) as [origin|]; [|discriminate].
+  destruct (negb (String.eqb origin (t_ddenom t))); [discriminate|].
+  cbv beta iota zeta delta [no_gas] in H. cbv zeta. rewrite G.
+  unfold ext_moving in H. unfold hyp_transfer_charged.
+  destruct (ext (CHypTransfer (cfg_orbiter_bech cfg) token domain rcp (t_damt t) (opt_str hook) gas fd fa md) s') as [v sx].
+  destruct v; [|discriminate]. cbn [fold_left] in H. inversion H; subst u s1'. clear H.
+  rewrite Hok. cbn [andb]. apply Z.leb_le in Hq. rewrite Hq. destruct u3. reflexivity.
+Qed.
+
+Lemma run_forwarding_charge_complete x g cfg e lie pp ccp f t s u s1' token domain rcp hook md gas fd fa payee gd q :
+  run_forwarding_with (forward_ctrl_with x false no_gas) cfg e lie pp ccp (Some f) t s = POk u s1' ->
+  f_attrs f = Some (AHyp token domain rcp hook md gas fd fa) ->
+  g (opt_str hook) domain gas = Some (payee, gd, q) ->
+  gas_ok fd fa gd q = true ->
+  q <= bal (ps_l s1') (cfg_orbiter cfg) gd ->
+  run_forwarding_with (forward_ctrl_with x false g) cfg e lie pp ccp (Some f) t s =
+    POk u (do_move (MSend (cfg_orbiter cfg) payee gd q) s1').
+Proof.
+  unfold run_forwarding_with. intros H Ha G Hok Hq.
+  apply mbind_ok in H as (u1 & s' & H1 & H). apply lift_ok in H1 as [Hv ->].
+  apply mbind_ok in H as (u2 & s' & H2 & H). apply lift_ok in H2 as [Ht ->].
+  unfold mbind, lift. rewrite Hv, Ht. rewrite Ha in *.
+  destruct (counterparty_of _) as [cp|]; [|discriminate].
+  destruct (pp (f_pid f)); [discriminate|].
+  destruct (negb (ccid_valid _)); [discriminate|].
+  destruct (ccp (f_pid f) cp); [discriminate|].
+  destruct (negb (bal (ps_l s) (cfg_orbiter cfg) (t_ddenom t) + lie =? t_damt t)); [discriminate|].
+  destruct (negb (existsb _ _)); [discriminate|].
+  eapply forward_ctrl_charge_complete; eauto.
+Qed.
+
+Lemma recv_body_charge_complete g cfg acts e lie o p pl f t s t' s1' token domain rcp hook md gas fd fa payee gd q :
+  recv_body repaired cfg acts e lie o p pl f t s = POk t' s1' ->
+  f_attrs f = Some (AHyp token domain rcp hook md gas fd fa) ->
+  g (opt_str hook) domain gas = Some (payee, gd, q) ->
+  gas_ok fd fa gd q = true ->
+  q <= bal (ps_l s1') (cfg_orbiter cfg) gd ->
+  recv_body (with_gas repaired g) cfg acts e lie o p pl f t s =
+    POk t' (do_move (MSend (cfg_orbiter cfg) payee gd q) s1').
+Proof.
+  unfold recv_body. cbn [with_gas repaired v_allow_self v_hyp_log_first v_gas]. intros H Hfa G Hok Hq.
+  apply mbind_ok in H as (prior & sa & Ha & H).
+  apply mbind_ok in H as (ub & sb & Hb & H).
+  apply mbind_ok in H as (uc & sc & Hc & H).
+  apply mbind_ok in H as (t1 & sd & Hd & H).
+  apply mbind_ok in H as (ue & se & He & H).
+  inversion H; subst t1 se. clear H.
+  unfold mbind. rewrite Ha, Hb, Hc, Hd.
+  erewrite run_forwarding_charge_complete; eauto.
+Qed.
+
+(* the world after the packet, on the chain without the hook *)
+Theorem recv_gas_charge_complete g cfg e w p tape lie denom amount sender receiver pl f
+        token domain rcp hook md gas fd fa payee gd q :
+  rr_out (recv_lie cfg e w p tape lie) = OAckOk ->
+  pk_data p = PIcs denom amount sender receiver (Ok pl) -> p_fwd pl = Some f ->
+  f_attrs f = Some (AHyp token domain rcp hook md gas fd fa) ->
+  g (opt_str hook) domain gas = Some (payee, gd, q) ->
+  gas_ok fd fa gd q = true ->
+  q <= bal (w_l (rr_world (recv_lie cfg e w p tape lie))) (cfg_orbiter cfg) gd ->
+  rr_out (recv_gas g cfg e w p tape lie) = OAckOk.
+Proof.
+  unfold recv_gas, recv_lie, recv_with, recv_generic.
+  change (is_orbiter_receiver (with_gas repaired g)) with (is_orbiter_receiver repaired).
+  change (parse_orbiter_packet (with_gas repaired g)) with (parse_orbiter_packet repaired).
+  change (v_stats_strict (with_gas repaired g)) with (v_stats_strict repaired).
+  intros H Hd Hf Hfa G Hok Hq.
+  destruct (negb (ccid_valid _)); [discriminate|].
+  destruct (_ || _); [discriminate|].
+  destruct (negb (existsb _ _)); [discriminate|].
+  rewrite Hd in *.
+  destruct (negb (is_orbiter_receiver repaired cfg e receiver)); [exfalso; eapply delegate_not_ok; eauto|].
+  destruct (parse_orbiter_packet repaired e p denom amount (Ok pl)) as [[t pl']| |] eqn:Hp; [|discriminate|discriminate].
+  apply parse_ok_payload in Hp as ->. rewrite Hf in *.
+  destruct (pass_limit (w_o w) <? slen (f_pass f)); [discriminate|].
+  match type of H with context [recv_body ?vr ?c ?ac ?en ?li ?o ?pk ?pl0 ?f0 ?t0 ?s0] =>
+    destruct (recv_body vr c ac en li o pk pl0 f0 t0 s0) as [t' s1'|l s1'|y] eqn:Hb end; [|discriminate|discriminate].
+  destruct (update_stats_swallow (v_stats_strict repaired) (w_o w) t' f) as [o'| |] eqn:Hu; [|discriminate|discriminate].
+  assert (Hl : ps_l (snd (ext (CEmit "EventPayloadProcessed") s1')) = ps_l s1')
+    by (unfold ext; destruct (ps_tape s1'); reflexivity).
+  destruct (ext (CEmit "EventPayloadProcessed") s1') as [v s2] eqn:E. destruct v; [|discriminate].
+  cbn [with_stat result_of rr_world w_l snd] in Hq, Hl. rewrite Hl in Hq.
+  erewrite recv_body_charge_complete; eauto.
+  rewrite ext_do_move, E. cbn [fst snd]. rewrite Hu. reflexivity.
 Qed.
